@@ -177,6 +177,9 @@ type c09Case struct {
 	ID    string   `json:"id"`
 	Cands []string `json:"candidates"` // with PORT placeholder
 	Hold  bool     `json:"hold"`       // hold later finishers at ice.dial.succeeded until the winner was handed out
+	// HoldPastGrace: later finishers are held for 2.6 s, i.e. beyond the 2 s the
+	// dialer grants losing attempts after it has handed out the winner
+	HoldPastGrace bool `json:"hold_past_grace,omitempty"`
 	Class string   `json:"class"`
 }
 
@@ -217,6 +220,10 @@ func runC09(e *Env) {
 		if i < e.Pick(2, 8) {
 			add("slow-direct+turn", false, "PROXY", "turn:"+jp("127.0.0.1"))
 		}
+		// stragglers: handshakes that complete at the dialer only after its grace period
+		if i < e.Pick(3, 10) {
+			cases = append(cases, c09Case{ID: fmt.Sprintf("C09-%04d", len(cases)), Cands: all, Class: "all-addresses:finishers-held-past-the-grace-period", HoldPastGrace: true})
+		}
 		// unreachable only + one reachable
 		add("unreachable+one", hold, net.JoinHostPort(addrs[0], "9"), "203.0.113.1:9", jp(addrs[r.Intn(len(addrs))]))
 	}
@@ -251,6 +258,10 @@ func runC09(e *Env) {
 			omu.Lock()
 			order = append(order, ev.S)
 			omu.Unlock()
+			if c.HoldPastGrace && k > 1 {
+				time.Sleep(2600 * time.Millisecond)
+				return
+			}
 			if c.Hold && k > 1 {
 				// hold later finishers until ProbeAndDial has returned the winner
 				select {
@@ -286,6 +297,9 @@ func runC09(e *Env) {
 		grace := time.Duration(e.Pick(700, 1000)) * time.Millisecond
 		if proxy != nil {
 			grace = 4500 * time.Millisecond // a slow attempt may finish (and must then be closed) this late
+		}
+		if c.HoldPastGrace {
+			grace = 3600 * time.Millisecond
 		}
 		time.Sleep(grace)
 		srv.mu.Lock()
